@@ -95,3 +95,22 @@ func (o *verifC05Overlay) Has(key []byte) (bool, error) {
 }
 
 func (o *verifC05Overlay) Close() {}
+
+// VerifC05FaultGate is consulted before every physical write, after VerifC05Gate. A non-nil error is
+// RETURNED to the caller through the store API (Put / Delete / Batch.Write) and the write is not performed:
+// a write fault the process survives, as opposed to the process death of VerifC05Gate.
+var VerifC05FaultGate func(file, op string, key []byte, n int) error
+
+func verifC05Fault(h *leveldb.DB, op string, key []byte, n int) error {
+	g := VerifC05FaultGate
+	if g == nil {
+		return nil
+	}
+	verifC05lock.Lock()
+	file, ok := verifC05names[h]
+	verifC05lock.Unlock()
+	if !ok {
+		file = "?"
+	}
+	return g(file, op, key, n)
+}
